@@ -71,6 +71,34 @@ fn cases_of(plan: &Plan) -> Vec<(u64, Vec<(usize, usize)>)> {
     out
 }
 
+fn shape_variants(ty: &Ty, wire: &V) -> Vec<V> {
+    use crate::treewalk::{self, Step};
+    let mut out = Vec::new();
+    let others = [V::U(0), V::U(1), V::N(0), V::B(vec![]), V::B(vec![1; 16]), V::T(vec![]), V::t("a"), V::A(vec![]), V::A(vec![V::U(0)]), V::M(vec![]), V::Bool(true), V::Bool(false), V::Null];
+    for s in treewalk::sites(ty, wire) {
+        if matches!(s.path.last(), Some(Step::Key(_))) {
+            out.push(treewalk::removed(wire, &s.path));
+            out.push(treewalk::duplicated(wire, &s.path));
+        }
+        for o in &others {
+            // a byte string / text of the member's own type is a different value, not a different
+            // shape; whether it fits may legitimately depend on a feature (large-blob fragment size)
+            let same_kind = matches!((&s.ty, o), (Ty::Bytes(_) | Ty::BytesExact(_), V::B(_)) | (Ty::Text(_) | Ty::TextTrunc(_) | Ty::TextSkip(_) | Ty::Icon, V::T(_)));
+            if same_kind {
+                continue;
+            }
+            out.push(treewalk::replaced(wire, &s.path, o.clone()));
+        }
+        if matches!(treewalk::get(wire, &s.path), Some(V::M(_))) {
+            for (k, v) in [(V::U(99), V::U(0)), (V::U(0), V::U(0)), (V::N(0), V::U(0)), (V::t("zz"), V::U(0)), (V::t(""), V::M(vec![])), (V::B(vec![]), V::U(0))] {
+                out.push(treewalk::inserted(wire, &s.path, usize::MAX, k.clone(), v.clone()));
+                out.push(treewalk::inserted(wire, &s.path, 0, k, v));
+            }
+        }
+    }
+    out
+}
+
 static THOROUGH: std::sync::atomic::AtomicBool = std::sync::atomic::AtomicBool::new(false);
 
 /// the corpus, described with base-mode (feature-free) schemas
@@ -138,6 +166,34 @@ pub fn corpus() -> Vec<CSpace> {
             eval: Box::new(move |i| {
                 let (m, d) = &cases[i as usize];
                 format!("{:?}", super::c15::roundtrip(name, &encode(&plan.build(*m, d))))
+            }),
+        });
+    }
+    // ill-formed and unusual shapes must be judged alike everywhere too: from each full anchor,
+    // every member removed (required ones included), duplicated, replaced by a value of every
+    // other CBOR type, and an unknown integer / text key added to every map
+    for b in PARAM_CMDS {
+        let target = Target::Cmd(b);
+        let plan = Plan::new(&target.schema(), Side::Request);
+        let wires = shape_variants(&target.schema(), &plan.build(plan.full_mask(), &[]));
+        let t = target.clone();
+        spaces.push(CSpace { name: format!("decode shapes {}", target.name()), total: wires.len() as u64, eval: Box::new(move |i| t.observe_bytes(&t.bytes(&wires[i as usize])).show()) });
+    }
+    for n in STANDALONE.iter().take(STANDALONE_STRUCTS) {
+        let target = Target::Alone(n);
+        let plan = Plan::new(&target.schema(), Side::Request);
+        let wires = shape_variants(&target.schema(), &plan.build(plan.full_mask(), &[]));
+        let t = target.clone();
+        spaces.push(CSpace { name: format!("decode shapes {}", target.name()), total: wires.len() as u64, eval: Box::new(move |i| t.observe_bytes(&t.bytes(&wires[i as usize])).show()) });
+    }
+    for (name, ty) in super::c15::bidir_types() {
+        let plan = Plan::new(&ty, Side::Response);
+        let wires = shape_variants(&ty, &plan.build(plan.full_mask(), &[]));
+        spaces.push(CSpace { name: format!("roundtrip shapes {}", name), total: wires.len() as u64, eval: Box::new(move |i| match super::c15::roundtrip(name, &encode(&wires[i as usize])) {
+                // which of the decoder's error kinds an ill-formed message meets first is not part
+                // of the wire format; acceptance and the decoded / re-encoded value are
+                super::c15::RT::DecodeErr(_) => "DecodeErr".to_string(),
+                other => format!("{:?}", other),
             }),
         });
     }
